@@ -1,6 +1,7 @@
 package roothash
 
 import (
+	"errors"
 	"fmt"
 	"math"
 
@@ -51,7 +52,14 @@ func processLivenessStatistics(ctx *tmapi.Context, epoch beacon.EpochTime, rtSta
 		}
 
 		status, err := regState.NodeStatus(ctx, n.PublicKey)
-		if err != nil {
+		switch {
+		case err == nil:
+		case errors.Is(err, registry.ErrNoSuchNode):
+			// The registration of the node has expired and the node has already been removed from
+			// the registry (which happens earlier in the same block), so there is nobody left to
+			// penalize.
+			continue
+		default:
 			return fmt.Errorf("failed to retrieve status for node %s: %w", n.PublicKey, err)
 		}
 		if status.IsSuspended(rtState.Runtime.ID, epoch) {
